@@ -252,7 +252,8 @@ def main():
             "replay_cmd_template": "./check %s --replay {path}" % pid,
             "engine": "tlc-conformance",
             "level_claimed": {"category": "model_checking", "text": c["text"], "design_ref": c["design_ref"]},
-            "level_note": c["note"],
+            "level_note": c["note"] + " Further targeted cases added after each round of independent seeded changes (DESIGN.md 7.6) run in both tiers; "
+                                      "their expectations are derived from the statement and written next to the case in harness/props/%s.py." % pid.lower(),
             "technique": c["technique"],
         })
     m = {
